@@ -71,9 +71,13 @@ def build(n=4, flags=''):
     shutil.rmtree(d, ignore_errors=True)
     os.rename(tmp, d)
     # keep the cache small
-    olds = sorted(glob.glob(os.path.join(CACHE, 'b_*')), key=os.path.getmtime)
-    for o in olds[:-8]:
-        shutil.rmtree(o, ignore_errors=True)
+    olds = sorted((o for o in glob.glob(os.path.join(CACHE, 'b_*')) if '.tmp' not in o), key=os.path.getmtime)
+    for o in olds[:-24]:
+        if time.time() - os.path.getmtime(o) > 3 * 3600:     # never evict a build another run may be using
+            shutil.rmtree(o, ignore_errors=True)
+    for o in glob.glob(os.path.join(CACHE, 'l2_*.json')):
+        if time.time() - os.path.getmtime(o) > 24 * 3600:
+            os.unlink(o)
     return d
 
 
